@@ -6,7 +6,7 @@ LEVEL = "proof"
 
 def run(ctx):
     generic.standard(ctx, "Props_C07", "c07", "safety", lists=("M",), ledger="known/C07.ledger",
-                     expected_key="coq_expected_mismatches", timeout=3400, extra_args=["-hang", 30])
+                     expected_key="coq_expected_mismatches", timeout=3400, extra_args=["-hang", 150])
     ctx.coverage["explanation"] = (
         "Coq (Wf.v on Nfa/NfaRef/FindAll/Swar/Backtrack): boolean well-formedness checkers with specifications (spans, captures, "
         "enumerations, split); the reference search's results are well-formed; the specification loop's enumerations are ordered and "
